@@ -13,6 +13,7 @@ import FcModel.Spec.C03
 import FcModel.Transform
 import FcModel.Extend
 import FcModel.SortPoints
+import FcModel.Effects
 namespace Fc.Glue
 open Fc
 
@@ -90,5 +91,36 @@ def guardedSorter (as : List Int → List Nat) (m : Mesh) : Option (List Nat) :=
     point sort), a hash, and the stable argsort of the orphan mask -/
 def paramsOf (as : List Int → List Nat) (h : List Nat → Int) (stripOrphans : Bool) : LadderParams :=
   ⟨⟨stableArgsortBool, guardedSorter as, h, as⟩, stripOrphans⟩
+
+/-! ### the comparator OBJECT of C19 (`runComparator`, mutable `_source/_reference`) over the concrete transformations -/
+
+/-- a view held by the comparator object: the number of coordinate columns it reports
+    (`domain.points.shape[1]`) and the data set (`none` = a transformation raised).  Keeping the
+    column count as a separate component makes it available on raised rungs too; on every rung that
+    exists it IS the data set's dimension (`Glue.tag_consistent`). -/
+abbrev CView := Nat × Option MeshFields
+
+def viewOf (f : MeshFields) : CView := (f.mesh.dim, some f)
+
+/-- C19's `LadderOps` (operations of `MeshFieldsComparator.__call__` on its mutable state) built
+    from C08's transformations; suites are (domain_equality_check, bool(suite)) -/
+def cmpOps (L : LadderParams) (cmp : MeshFields → MeshFields → Bool × Bool) :
+    C19.LadderOps CView (Bool × Bool) where
+  cmp := fun x y => match x.2, y.2 with
+    | some a, some b => cmp a b
+    | _, _ => (false, false)
+  ok := fun s => s.1
+  dim := fun x => x.1
+  structured := fun _ => false
+  ext := fun m x => (m, x.2.bind (extendSpaceDim m))
+  perm := fun x => (x.1, x.2.bind (permuteFields L))
+  sortc := fun x => (x.1, x.2.bind (sortCells L.sort.h L.sort.argsortI))
+
+/-- the view's column count is that of its data set, whenever the data set exists -/
+def Consistent (x : CView) : Prop := ∀ f, x.2 = some f → f.mesh.dim = x.1
+
+/-- the fully sorted view of a data set, as the ladder builds it: `sort_cells(_permute(f))` -/
+def sortedView (L : LadderParams) (f : MeshFields) : Option MeshFields :=
+  (permuteFields L f).bind (sortCells L.sort.h L.sort.argsortI)
 
 end Fc.Glue
